@@ -459,6 +459,9 @@ func (r *run) checkAll(when string) {
 			if r.lastIsReset() {
 				prop = "C08"
 			}
+			if n := len(r.hist); n > 0 && r.hist[n-1].kind == opCall && r.hist[n-1].fb == fbNil {
+				prop = "C04,C07" // a call with a nil function that is not recorded (stub) is C07's statement too
+			}
 			r.fail(prop, "record-count", fmt.Sprintf("%s: %sCalls() has %d records, model has %d", when, r.ms[m].name, got.Len(), len(want)))
 			return
 		}
@@ -975,3 +978,21 @@ func Main(specs []MockSpec) {
 	enc := json.NewEncoder(os.Stdout)
 	enc.Encode(rep)
 }
+
+// Values builds argument values for arbitrary function types (exported for the
+// reflection-based targets of engine E4).
+type Values struct{ r run }
+
+func NewValues() *Values { return &Values{} }
+
+// Args returns one value per parameter of ft, derived from token.
+func (v *Values) Args(ft reflect.Type, token int) []reflect.Value {
+	args := make([]reflect.Value, ft.NumIn())
+	for i := range args {
+		args[i] = v.r.mkValue(ft.In(i), token, 0)
+	}
+	return args
+}
+
+// Same reports whether b is the very same value as a (identity for reference kinds).
+func Same(a, b reflect.Value) bool { return same(a, b) }
